@@ -15,7 +15,8 @@ Python's `int()` / `str()` / `"{:02X}".format` through core's `Nat.ofDigitChars`
 `Nat.toDigits`).  IPv6 is modelled relative to `Inet` (`socket.inet_pton` / `inet_ntop` of
 glibc for `AF_INET6`); the theorems assume `InetLaw`.  `Glibc.pton6` / `Glibc.ntop6` is a
 concrete port of glibc's two functions; the driver runs it and the correspondence checks it
-against the real `socket.inet_pton/ntop` on every string involved.
+against the real `socket.inet_pton/ntop` on every string involved.  That the port satisfies
+`InetLaw` is proved in `Lemmas/AddrGlibc.lean` (`glibcInetLaw`).
 -/
 namespace Vinegar.Addr
 open Vinegar
@@ -522,49 +523,61 @@ def words : List UInt8 → List Nat
   | a :: b :: r => (a.toNat * 256 + b.toNat) :: words r
   | _ => []
 
+/-- glibc keeps the current run if it is strictly longer than the best one so far -/
+def better (cur best : Option (Nat × Nat)) : Option (Nat × Nat) :=
+  match cur, best with
+  | some c, none => some c
+  | some c, some b => if c.2 > b.2 then some c else some b
+  | none, b => b
+
+/-- the scan over the words: `i` = index of the head of the list, `cur` = the run that ends
+just before `i` (if any), `best` = the best run that ended earlier -/
+def scanRuns (i : Nat) (l : List Nat) (cur best : Option (Nat × Nat)) : Option (Nat × Nat) :=
+  match l with
+  | [] => better cur best
+  | w :: r =>
+    if w = 0 then
+      match cur with
+      | none => scanRuns (i + 1) r (some (i, 1)) best
+      | some c => scanRuns (i + 1) r (some (c.1, c.2 + 1)) best
+    else scanRuns (i + 1) r none (better cur best)
+
 /-- `(base, len)` of the first longest run of zero words, scanning like glibc -/
 def bestRun (ws : List Nat) : Option (Nat × Nat) :=
-  let rec go (i : Nat) (l : List Nat) (cur best : Option (Nat × Nat)) : Option (Nat × Nat) :=
-    let better (cur best : Option (Nat × Nat)) : Option (Nat × Nat) :=
-      match cur, best with
-      | some c, none => some c
-      | some c, some b => if c.2 > b.2 then some c else some b
-      | none, b => b
-    match l with
-    | [] => better cur best
-    | w :: r =>
-      if w = 0 then
-        match cur with
-        | none => go (i + 1) r (some (i, 1)) best
-        | some c => go (i + 1) r (some (c.1, c.2 + 1)) best
-      else go (i + 1) r none (better cur best)
-  match go 0 ws none none with
+  match scanRuns 0 ws none none with
   | some (b, l) => if l < 2 then none else some (b, l)
   | none => none
 
 /-- `"%x"` -/
 def hexStr (n : Nat) : Str := Nat.toDigits 16 n
 
+/-- "is this address an encapsulated IPv4?": the best run starts at word 0 and has length 6
+(`::a.b.c.d`) or length 5 followed by `ffff` (`::ffff:a.b.c.d`) -/
+def v4Embedded (ws : List Nat) (bb bl : Nat) : Bool :=
+  bb = 0 ∧ (bl = 6 ∨ (bl = 5 ∧ ws.getD 5 0 = 0xffff))
+
+/-- the printing loop of `inet_ntop6` from word `i` on (`l` = the words from `i`) -/
+def ntopGo (b : List UInt8) (ws : List Nat) (best : Option (Nat × Nat)) (i : Nat) (l : List Nat) : Str :=
+  match l with
+  | [] => []
+  | w :: r =>
+    match best with
+    | some (bb, bl) =>
+      if bb ≤ i ∧ i < bb + bl then
+        (if i = bb then [':'] else []) ++ ntopGo b ws best (i + 1) r
+      else
+        let sep : Str := if i ≠ 0 then [':'] else []
+        if i = 6 ∧ v4Embedded ws bb bl = true then
+          sep ++ ntop4 (b.drop 12)
+        else sep ++ hexStr w ++ ntopGo b ws best (i + 1) r
+    | none =>
+      let sep : Str := if i ≠ 0 then [':'] else []
+      sep ++ hexStr w ++ ntopGo b ws best (i + 1) r
+
 def ntop6 (b : List UInt8) : Str :=
   let ws := words b
   let best := bestRun ws
-  let rec go (i : Nat) (l : List Nat) : Str :=
-    match l with
-    | [] => []
-    | w :: r =>
-      match best with
-      | some (bb, bl) =>
-        if bb ≤ i ∧ i < bb + bl then
-          (if i = bb then [':'] else []) ++ go (i + 1) r
-        else
-          let sep : Str := if i ≠ 0 then [':'] else []
-          if i = 6 ∧ bb = 0 ∧ (bl = 6 ∨ (bl = 5 ∧ ws.getD 5 0 = 0xffff)) then
-            sep ++ ntop4 (b.drop 12)
-          else sep ++ hexStr w ++ go (i + 1) r
-      | none =>
-        let sep : Str := if i ≠ 0 then [':'] else []
-        sep ++ hexStr w ++ go (i + 1) r
-  let body := go 0 ws
+  let body := ntopGo b ws best 0 ws
   match best with
   | some (bb, bl) => if bb + bl = 8 then body ++ [':'] else body
   | none => body
